@@ -9,6 +9,22 @@ BASE_ASSUMPTIONS = [
 ]
 
 CHECKS = {
+    "C14": {
+        "quick": [
+            {"pkg": "cli_v2", "entries": ["VerifC14Diff"], "params": {"N": 2, "COLOR": 1}},
+            {"pkg": "cli_v2", "entries": ["VerifC14Diff"], "params": {"N": 1, "PRECISION": 1, "FORMATS": 1, "MODES": 1, "DOCS": 3}, "extra": ["-solver", "cvc5"]},
+            {"pkg": "cli_v2", "entries": ["VerifC14Patch", "VerifC14Errors", "VerifC14Translate"], "params": {"N": 2}},
+        ],
+        "thorough": [
+            {"pkg": "cli_v2", "entries": ["VerifC14Diff"], "params": {"N": 3, "COLOR": 1}},
+            {"pkg": "cli_v2", "entries": ["VerifC14Diff"], "params": {"N": 1, "PRECISION": 1, "FORMATS": 1, "MODES": 1, "DOCS": 3}, "extra": ["-solver", "cvc5"]},
+            {"pkg": "cli_v2", "entries": ["VerifC14Patch", "VerifC14Errors", "VerifC14Translate"], "params": {"N": 3}},
+        ],
+        "covers": ["c14.diff.files", "c14.diff.stdin", "c14.diff.outfile", "c14.patch", "c14.errors", "c14.translate.jd2patch", "c14.translate.patch2jd", "c14.translate.jd2merge", "c14.translate.merge2jd"],
+        "outside": "PARTIAL: only the v2/jd binary, JSON input; -yaml, -setkeys, -git-diff-driver, -port and GitHub-action mode, the top-level binary and -v2=false are not covered; process start-up, the real flag parser, files and stdio are models in the engine (the native replay runs the real binary)",
+        "level_note": "PARTIAL claim (DESIGN.md section 7): main() of /repo/v2/jd is executed in-process by the engine over models of flag, os, fmt, log and ioutil (flags registered by the real flag.X calls of the package initialiser, a model of flag.Parse, virtual files / stdin / stdout, os.Exit ends main); expected output and status are computed in the harness with library calls and the flag->option mapping of README.md. Counterexamples and sampled paths are replayed by running the real binary as a process.",
+        "assumptions": ["CLI: package flag, os, fmt, log, ioutil are models (registered flags, model of flag.Parse incl. -x, -x=v, -x v, --; virtual files; os.Exit ends main); strconv.FormatFloat/ParseFloat round-trip exactly"],
+    },
     "C17": {
         "quick": [
             {"pkg": "lib", "entries": ["VerifC17Flat"], "params": {"N": 3, "M": 2}},
@@ -190,11 +206,13 @@ CHECKS = {
     "C04": {
         "quick": [
             {"pkg": "v2", "entries": ["VerifC04Pair"], "params": {"N": 1}},
+            {"pkg": "v2", "entries": ["VerifC04Precision"], "params": {"N": 1}, "extra": ["-solver", "cvc5"]},
         ],
         "thorough": [
             {"pkg": "v2", "entries": ["VerifC04Pair"], "params": {"N": 2}},
+            {"pkg": "v2", "entries": ["VerifC04Precision"], "params": {"N": 2}, "extra": ["-solver", "cvc5"]},
         ],
-        "covers": ["c04.pair.list", "c04.pair.set", "c04.pair.multiset", "c04.pair.setkeys"],
+        "covers": ["c04.pair.list", "c04.pair.set", "c04.pair.multiset", "c04.pair.setkeys", "c04.precision"],
         "outside": "arrays longer than N, strings other than 0/1/8 bytes, FNV collisions",
     },
     "C05": {
@@ -203,14 +221,16 @@ CHECKS = {
             {"pkg": "v2", "entries": ["VerifC05Nest"], "params": {"N": 1, "INNER": 2}},
             {"pkg": "v2", "entries": ["VerifC05Nest"], "params": {"N": 2, "INNER": 1}},
             {"pkg": "v2", "entries": ["VerifC05Docs"], "params": {"OPTS": 19}},
+            {"pkg": "v2", "entries": ["VerifC05Precision"], "params": {"N": 1}, "extra": ["-solver", "cvc5"]},
         ],
         "thorough": [
             {"pkg": "v2", "entries": ["VerifC05Flat"], "params": {"N": 3}},
             {"pkg": "v2", "entries": ["VerifC05Nest"], "params": {"N": 2, "INNER": 2}},
             {"pkg": "v2", "entries": ["VerifC05Docs"], "params": {"OPTS": 0x77}},
+            {"pkg": "v2", "entries": ["VerifC05Precision"], "params": {"N": 1}, "extra": ["-solver", "cvc5"]},
         ],
-        "covers": ["c05.flat.none", "c05.flat.set", "c05.flat.multiset", "c05.flat.merge", "c05.nest.none", "c05.nest.set+merge", "c05.obj.none", "c05.void.none", "c05.keyed.setkeys"],
-        "outside": "arrays longer than N; Precision(eps) (listed finding precision-diff is checked separately in C04 for Equals only); the CLI exit status (C14); FNV collisions",
+        "covers": ["c05.flat.none", "c05.flat.set", "c05.flat.multiset", "c05.flat.merge", "c05.nest.none", "c05.nest.set+merge", "c05.obj.none", "c05.void.none", "c05.keyed.setkeys", "c05.precision"],
+        "outside": "arrays longer than N; the CLI exit status is decided in C14; FNV collisions",
     },
     "C01": {
         "quick": [
@@ -246,7 +266,6 @@ DEFAULT_TECHNIQUE = "bounded symbolic execution of the Go SSA with SMT (z3/cvc5)
 _NA_PENDING = "check not built yet in this session (engine exists; harness pending)"
 NOT_APPLICABLE = {
     
-    "C14": _NA_PENDING, 
     "C16": ("quantifies over the characters of strings as they pass through yaml.v2's scanner/resolver/emitter and encoding/json "
             "(about 10k lines of third-party reflection- and regexp-driven text code); no Go symbolic engine in the image reaches that "
             "code and modelling the codecs would assume the very thing the property states; jd's own share is a 15-line adapter"),
